@@ -22,7 +22,6 @@ import time
 from common import VERIF, WORK, TRUSTED_KANI
 
 KANI_DIR = os.path.join(VERIF, "kani")
-SHIM = os.path.join(VERIF, "lib", "shim")
 
 BASE_FLAGS = ["-Z", "stubbing", "-Z", "unstable-options",
               "--no-memory-safety-checks", "--no-overflow-checks", "--no-undefined-function-checks"]
@@ -168,7 +167,6 @@ def run_kani(names, timeout_s, jobs=8, unwind=None, extra_cbmc=(), target="kani-
     assertions by design).  With single_query=False the harness crate is built with feature `covers`."""
     os.makedirs(WORK, exist_ok=True)
     env = dict(os.environ)
-    env["PATH"] = SHIM + ":" + env["PATH"]
     env["CARGO_NET_OFFLINE"] = "true"
     cmd = ["cargo", "kani"] + BASE_FLAGS
     if single_query:
@@ -247,6 +245,24 @@ def run_group(res, prop, prefixes, tier, expected_panics=(), jobs=6, timeout_s=N
                 log, " | ".join(re.findall(r"^error[^\n]*", out, re.M)[:3])))
             continue
         results = parse(out, names)
+        # In single-query mode a harness whose query is satisfiable (some property violated) makes kani-driver's output
+        # parser panic, which also loses the harnesses still in flight.  Those harnesses are run again in the ordinary
+        # one-query-per-property mode, whose failures Kani reports per check.  (Only happens on a tree that breaks something.)
+        lost = [n for n in names if results[n].status in ("missing",) or
+                (results[n].status == "inconclusive" and any("no verdict line" in x for x in results[n].notes))]
+        if single_query and lost and ("panicked at kani-driver" in out or "cbmc_output_parser" in out):
+            out2, wall2, to2, log2 = run_kani(lost, t_budget, jobs=min(j, 4), harness_timeout=(1200 if j > 1 else 1800), single_query=False,
+                                              target="kani-target")
+            frag["kani_wall_s"] = round(frag["kani_wall_s"] + wall2, 1)
+            frag["logs"].append(log2 + " (second pass, per-property mode, for %d harnesses)" % len(lost))
+            if os.path.exists(log2):
+                try:
+                    os.replace(log2, log2.replace(".log", "_pass2.log"))
+                except OSError:
+                    pass
+            results2 = parse(out2, lost)
+            for n in lost:
+                results[n] = results2[n]
         for n in names:
             r = results[n]
             frag["harnesses"].append({"name": n, "status": r.status, "checks": r.checks, "covers": "%d/%d" % (r.covers_sat, r.covers_total),
